@@ -46,6 +46,16 @@ CHECKS = {
              "and invalid arguments, unresolvable link/include); for every transition that raises, all attributes "
              "and child lists (by identity) of every pooled object must be unchanged.",
         design="DESIGN.md 2.4, C06"),
+    "C09": dict(
+        engine="input",
+        category="model_checking",
+        technique="exhaustive grid enumeration + all short count-changing histories against a three-valued reference",
+        text="The complete grid of cardinality settings x previous setting x child counts 0..5 x three kinds x three "
+             "routes is executed on real objects and compared with a three-valued reference normaliser (MUST / "
+             "MUST-RAISE / EITHER); the warning-iff-outside-range rule is checked for every cell and after every step "
+             "of all histories of <=4 (quick) / <=5 (thorough) set/add/remove/clear steps; every normal-form cardinality "
+             "with bounds <=3 is saved and reloaded in XML, JSON, YAML through string, file and odml.save/load.",
+        design="DESIGN.md C09"),
 }
 
 NOT_YET = {}
